@@ -59,6 +59,20 @@ def gen_case(rng, depth):
             if t[0] == "c" and op in ("//", "%") and t[1] == 0:
                 t = ["c", 5]
             stmts.append(["aug", op, dest, t])
+        elif regs and rng.random() < 0.12:
+            # register +- constant (folded into one node by the generator)
+            # as the operand of an operator that depends on signedness
+            inner = ["b", rng.choice("+-"), ["p", "r%d" % rng.choice(regs)[0]],
+                     ["c", rng.choice([1, 2, 5, 150, 0x7fff, 0x10000,
+                                       -1, -3, -150])]]
+            op = rng.choice([">>", ">>", "//", "%", "*", "+"])
+            right = ["c", gen.gen_const(rng, True) or 1] if op == ">>" else \
+                rng.choice([["p", rng.choice(places)],
+                            ["c", rng.choice([3, 7, 1000])]])
+            t = ["b", op, inner, right]
+            if rng.random() < 0.3:
+                t = ["b", rng.choice("+|^"), t, ["p", rng.choice(places)]]
+            stmts.append(["set", dest, t])
         else:
             t = gen.gen_tree(rng, places, d)
             if t[0] == "p" and rng.random() < 0.5:
